@@ -266,7 +266,8 @@ def main(argv):
                     continue
                 seen_fail.add(key)
                 violations.append({'harness': name, 'obligation': lab, 'witness': rv['witness'],
-                                   'native': rv['native'], 'release': rv.get('release'), 'backend': res['backend']})
+                                   'native': rv['native'], 'release': rv.get('release'), 'backend': res['backend'],
+                                   'witness_source': rv.get('witness_source', 'solver trace')})
             else:
                 inconclusive.append('%s: solver counterexample for %s did not reproduce natively (%s)'
                                     % (name, lab, rv.get('why')))
